@@ -165,6 +165,26 @@ func (w *World) GenVC(fn *ssa.Function, ct *Contract, opts ...func(*Engine)) (re
 				e.oblige(st, "frame", "", e.C.Or(ok...), pos, "write to "+kind+" is to a fresh object or to a target listed in assigns")
 			}
 		}
+		if e.ShareCheck {
+			// sharing discipline (C18): see share.go
+			e.Share = &shareInfo{alloc0: st.Alloc}
+			for i, a := range args {
+				if i == 0 && w.sharedRecv(fn) {
+					continue
+				}
+				e.ownAssume(a)
+			}
+			for _, b := range binds {
+				e.ownAssume(b)
+			}
+			inner := e.topFrameRule
+			e.topFrameRule = func(e *Engine, st *State, ref *smt.Term, kind string, pos string) {
+				if inner != nil {
+					inner(e, st, ref, kind, pos)
+				}
+				e.shareRule(st, ref, kind, pos)
+			}
+		}
 	}
 	entryAssumes := len(e.Assumes)
 	rets, exit, fr := e.execFuncTop(fn, args, binds, st, ct)
